@@ -121,6 +121,20 @@ var c03MapForms = []string{
 	"{% for k, v in HASH|merge(M) %}{{ k }}{% endfor %}",
 	"{{ HASH|json_encode }}",
 	"{% include 'nothere' ignore missing with HASH only %}x",
+	"{{ DUPHASH|json_encode }}",
+	"{% for k, v in DUPHASH %}{{ k }}{{ v }}{% endfor %}",
+	"{{ DUPHASH|keys|join }}{{ DUPHASH|first }}",
+}
+
+// dupHashLiteral: a hash literal in which some keys occur more than once with different values
+func dupHashLiteral(t *rapid.T) string {
+	n := rapid.IntRange(3, 7).Draw(t, "dn")
+	var parts []string
+	for i := 0; i < n; i++ {
+		k := rapid.SampledFrom([]string{"a", "b", "c"}).Draw(t, "dk")
+		parts = append(parts, fmt.Sprintf("'%s': %d", k, i+1))
+	}
+	return "{" + strings.Join(parts, ", ") + "}"
 }
 
 var c03PrintForms = []string{"{{ V }}", "{{ V|json_encode }}", "{{ [V, V]|join(',') }}", "{% for x in [V] %}{{ x }}{% endfor %}", "{{ V|default('d') }}", "{{ V ~ '' }}", "{{ dump(V) }}"}
@@ -179,6 +193,7 @@ func genC03(t *rapid.T) (C03Case, []string, bool) {
 	switch {
 	case kind <= 5:
 		src := rapid.SampledFrom(c03MapForms).Draw(t, "form")
+		src = strings.ReplaceAll(src, "DUPHASH", dupHashLiteral(t))
 		src = strings.ReplaceAll(src, "HASH", hashLiteral(t))
 		return C03Case{Src: src, Ctx: ctx}, []string{"map", "maptype:" + ctx.Vals[0].M}, true
 	case kind <= 7:
